@@ -126,6 +126,11 @@ class HashStepOracles(Oracles):
             idv = args[1]
             self.observe("contains-arg", frozenset(tags_of(idv)))
             return mkbool(self.choose("avail", self.DOMAINS["avail"]))
+        if (p.endswith("BitSet::remove") or path.endswith("BitSet::remove") or (name == "remove" and "bit_set" in p.split("<")[0])) and len(args) == 2:
+            # a step function that claims the element it accepts (a duty the growth function has on the pinned tree): what is claimed is
+            # observed; whether every placed element is claimed in time is decided end to end by the chain tables
+            self.observe("claimed", frozenset(tags_of(args[1])))
+            return mkbool(True)
         # ---- extension queries
         if (p.startswith("Exts::") or path.startswith("Exts::")) and args:
             e = recv(it, args[0])
@@ -244,6 +249,25 @@ def hash_step_spec(g):
     return term
 
 
+class _Any:
+    """a component of an outcome the code does not produce (and nobody can therefore read)"""
+
+    def __eq__(self, other):
+        return True
+
+    def __ne__(self, other):
+        return False
+
+    def __hash__(self):
+        return 0
+
+    def __repr__(self):
+        return "n/a"
+
+
+ANY = _Any()
+
+
 def outcome_of_extmode(r):
     """normalise an ExtMode / ExtModeNode result"""
     if not isinstance(r, Adt):
@@ -265,6 +289,11 @@ def outcome_of_extmode(r):
         kk = "canon" if "canon" in kt else ("plain" if "plain" in kt else ("id-of-next" if "id-of-next" in kt else "?"))
         role, side = exts_id(e)
         return ("Unique", kk, dir_of(d), role, side)
+    if r.variant == 0 and len(r.fields) == 2:      # Unique(k, dir): the onward extensions (which no caller reads on the pinned tree) are not reported
+        k, d = r.fields
+        kt = tags_of(k)
+        kk = "canon" if "canon" in kt else ("plain" if "plain" in kt else ("id-of-next" if "id-of-next" in kt else "?"))
+        return ("Unique", kk, dir_of(d), ANY, ANY)
     return ("?", repr(r))
 
 
@@ -273,6 +302,8 @@ def show_step(o):
         return "⊥"
     if o[0] == "Terminal":
         return "Terminal(single_dir(exts[%s], %s))" % (o[1], dir_name(o[2]) if o[2] in (0, 1) else o[2])
+    if o[0] == "Unique" and o[3] is ANY:
+        return "Unique(%s k-mer, dir=%s)" % (o[1], dir_name(o[2]) if o[2] in (0, 1) else o[2])
     if o[0] == "Unique":
         return "Unique(%s k-mer, dir=%s, single_dir(exts[%s], %s))" % (
             o[1], dir_name(o[2]) if o[2] in (0, 1) else o[2], o[3], dir_name(o[4]) if o[4] in (0, 1) else o[4])
